@@ -301,11 +301,15 @@ def doStoreOp (st : Directory.Store) (op : String) : Option (Directory.Store × 
 
 def doStore (st : Directory.Store) (ops : List String) : String := Id.run do
   let mut s := st
+  let mut saved := st.users
   let mut outs : List String := []
   for op in ops do
-    match doStoreOp s op with
-    | none => return "bad-input"
-    | some (s', o) => s := s'; outs := outs ++ [o]
+    -- `V`: the application keeps what the getter returns; `W`: it hands that list back to SetUsers
+    if op == "V" then saved := s.users; outs := outs ++ ["saved"]
+    else if op == "W" then s := { s with users := saved }; outs := outs ++ ["set"]
+    else match doStoreOp s op with
+      | none => return "bad-input"
+      | some (s', o) => s := s'; outs := outs ++ [o]
   return join " | " outs
 
 /-! ### `cenc`: the specification-side client encoder (Spec.clientEncode), so that what a real go-ldap
